@@ -5,6 +5,7 @@ package checks
 import (
 	segment "github.com/blevesearch/scorch_segment_api/v2"
 
+	"verifharness/indep"
 	"verifharness/spec"
 )
 
@@ -14,3 +15,5 @@ const vectorsBuild = true
 func vectorEquivalence(prop string, b *spec.BatchSpec, want *spec.Obs, mem, opened segment.Segment) *Violation {
 	return nil // replaced by the C14 machinery below when built
 }
+
+func checkVectorEnvelope(prop, tag string, f *indep.File, want *spec.Obs) *Violation { return nil }
